@@ -740,7 +740,17 @@ namespace pika::threads::detail {
                     debug(str<>("schedule_thread"), "received HINT_THREAD",
                         dec<3>(schedulehint.hint),
                         threadinfo<threads::detail::thread_id_ref_type*>(&thrd)));
-                thread_num = select_active_pu(l, schedulehint.hint, true /*allow_fallback*/);
+                // A hint that does not name a worker of this pool is treated like no hint: a
+                // thread that is resumed before it was ever suspended still carries the unset
+                // last-worker number (-1)
+                std::size_t hint_num = static_cast<std::size_t>(schedulehint.hint);
+                if (schedulehint.hint < 0 || hint_num >= num_workers_)
+                {
+                    hint_num = local_num != std::size_t(-1) ?
+                        local_num :
+                        numa_holder_[0].thread_queue(0)->worker_next(num_workers_);
+                }
+                thread_num = select_active_pu(l, hint_num, true /*allow_fallback*/);
                 domain_num = d_lookup_[thread_num];
                 q_index = q_lookup_[thread_num];
                 break;
